@@ -231,12 +231,41 @@ def build_harness_bin(out_name, sources, tree="asan", extra_flags="", libs="", d
         return out
 
 
+def build_vmod(tree="asan"):
+    """The verification-only modules libbloc_vmod / libbloc_vmod2 (same source, two names)."""
+    cfg = TREES[tree]
+    hdir = os.path.join(BUILD, "harness-" + tree)
+    res = []
+    for name in ("vmod", "vmod2"):
+        with Lock("harness-" + tree + "-" + name):
+            os.makedirs(hdir, exist_ok=True)
+            out = os.path.join(hdir, "libbloc_%s.so.2.9" % name)
+            key = hashlib.sha1()
+            key.update(header_key().encode())
+            key.update((cfg["flags"] + REPO + name).encode())
+            with open(os.path.join(HARNESS, "vmod.cpp"), "rb") as f:
+                key.update(f.read())
+            k = key.hexdigest()
+            stamp = out + ".key"
+            if not (os.path.exists(out) and os.path.exists(stamp) and open(stamp).read() == k):
+                cmd = [cfg["cxx"], "-std=c++11", "-shared", "-fPIC"] + cfg["flags"].split() + cfg["rel"].split() + \
+                      ['-DVMOD_NAME="%s"' % name, "-I" + REPO, "-I" + os.path.join(REPO, "blocc"),
+                       os.path.join(HARNESS, "vmod.cpp"), "-o", out, "-L" + os.path.join(tree_dir(tree), "blocc"), "-lblocc"]
+                _run(cmd)
+                with open(stamp, "w") as f:
+                    f.write(k)
+            res.append(out)
+    return res
+
+
 def ensure(tree="asan", bins=("vdrv",)):
     build_tree(tree)
     res = {}
     for b in bins:
         if b == "vdrv":
             res[b] = build_harness_bin("vdrv", ["vdrv.cpp"], tree, deps=["vcommon.h"])
+        if b == "vmod":
+            res[b] = build_vmod(tree)
         if b == "sched":
             res[b] = build_harness_bin("sched", ["sched.cpp"], tree, deps=["vcommon.h"])
     return res
